@@ -48,4 +48,67 @@ def applyMgr (f : FCfg) (i : Nat) : Rules.St → List Eff → Option Rules.St
 /-- the log a manager method leaves when run on the attributes of device state `ds` -/
 def genMgr (f : FCfg) (ds : DSt) (prog : List SSt) : List Eff := (callS (mgrCtx f) prog [] (mgrStore ds)).1.log
 
+/-! ## `AutofireCoil.enable` / `disable` -/
+
+/-- the autofire device's attributes (`_rule` is an opaque handle: `clear_hw_rule(self._rule)` means `clearRules`) -/
+def afStore (ds : DSt) : String → PyVal := fun k => if k = "_enabled" then pb ds.enabled else .none
+
+def optB : Option Bool → PyVal | some b => .bool b | none => .none
+def optN : Option Nat → PyVal | some n => .int n | none => .none
+/-- a debounce config value: "normal", or one of the others ("quick" / "auto") -/
+def debS (b : Bool) : PyVal := .str (if b then "normal" else "quick")
+
+/-- the config entries `enable` reads, as the device configuration `ACfg` of the model holds them -/
+def afCtx (a : ACfg) : SCtx := ⟨fun k =>
+  if k = "coil_overwrite.recycle" then optB a.owRecycle
+  else if k = "coil.default_recycle" then optB a.defRecycle
+  else if k = "switch_overwrite.debounce" then (match a.owDeb with | some d => debS d | none => .none)
+  else if k = "switch.debounce" then debS a.swDeb
+  else if k = "coil_pulse_delay" then .int a.delay
+  else if k = "reverse_switch" then pb a.reverse
+  else if k = "coil_overwrite.pulse_ms" then optN a.owPulse
+  else if k = "coil_overwrite.pulse_power" then optN a.owPower
+  else .none, fun _ _ => .none⟩
+
+def vNatD (d : Nat) : PyVal → Nat | .int i => i.toNat | _ => d
+
+/-- the table row `platform_controller.set_pulse_on_hit_rule` / `set_delayed_pulse_on_hit_rule` writes for the settings it
+is CALLED with (debounce, invert, recycle, delay, duration, power come from the logged arguments; switch number, coil number,
+the switch's NC flag and the coil's default pulse are the platform controller's own knowledge) -/
+def rowOfCall (a : ACfg) (e : Eff) (delayed : Bool) : Entry :=
+  let inv := (e.arg "0.invert").truthy != a.nc
+  let dur := if delayed then e.arg "3.duration" else e.arg "2.duration"
+  let pow := if delayed then e.arg "3.power" else e.arg "2.power"
+  ⟨a.sw, a.coil, if delayed then 5 else 0,
+   [b2n inv, b2n (e.arg "0.debounce").truthy, vNatD a.defPulse dur, vNatD 1000 pow, 0, b2n (e.arg "1.recycle").truthy,
+    if delayed then vNatD 0 (e.arg "2") else 0, 0, 0], false⟩
+
+def auxOfCall (a : ACfg) (e : Eff) (delayed : Bool) : List Aux :=
+  let inv := (e.arg "0.invert").truthy != a.nc
+  let dur := if delayed then e.arg "3.duration" else e.arg "2.duration"
+  psuAux (vNatD a.defPulse dur != 0) a.sw (if inv then 0 else 1) a.coil
+
+def applyAfEff (d : Dev) (a : ACfg) (i : Nat) (s : Rules.St) (e : Eff) : Option Rules.St :=
+  if e.obj = "store" then
+    if e.meth = "_enabled" then some (upd s i { s.devs i with enabled := (e.arg "value").truthy }) else none
+  else if e.obj = "pc" then
+    if e.meth = "set_pulse_on_hit_rule" then
+      some { s with table := s.table ++ [rowOfCall a e false], aux := s.aux ++ auxOfCall a e false }
+    else if e.meth = "set_delayed_pulse_on_hit_rule" then
+      some { s with table := s.table ++ [rowOfCall a e true], aux := s.aux ++ auxOfCall a e true }
+    else if e.meth = "clear_hw_rule" then some (clearRules s d)
+    else none
+  else if e.obj = "delay" ∧ e.meth = "remove" ∧ e.arg "0" = .str "_timeout_enable_delay" then
+    some (upd s i { s.devs i with reDue := none })
+  else none
+
+def applyAf (d : Dev) (a : ACfg) (i : Nat) : Rules.St → List Eff → Option Rules.St
+  | s, [] => some s
+  | s, e :: r => match applyAfEff d a i s e with
+    | some s' => applyAf d a i s' r
+    | none => none
+
+/-- the log an autofire method leaves when run on the attributes of device state `ds` -/
+def genAf (a : ACfg) (ds : DSt) (prog : List SSt) : List Eff := (callS (afCtx a) prog [] (afStore ds)).1.log
+
 end MpfVerif.RulesGen
